@@ -215,7 +215,7 @@ func startProdOnce(c prodCfg) (*prodProc, error) {
 	if err != nil {
 		return nil, err
 	}
-	args := []string{"--listen", api, "--metrics_listen", maddr, "--private_key", c.WitSKey, "--poll_interval", c.Poll.String(), "--logtostderr"}
+	args := []string{"--listen", api, "--metrics_listen", maddr, "--private_key", c.WitSKey, "--poll_interval", c.Poll.String(), "--logtostderr", "--v=2"} // (--v=2 as in cmd/omniwitness/docker-compose.yaml)
 	if c.DB != "" {
 		args = append(args, "--db_file", c.DB)
 	}
